@@ -279,6 +279,14 @@ func (p *Program) c16ReadsConstraints(fn *ssa.Function, depth int) bool {
 // R1
 
 func c16Extract(call *ssa.Call, idx int) ssa.Value {
+	if call == nil {
+		return nil
+	}
+	return tupleExtract(call, idx)
+}
+
+// tupleExtract returns the Extract of index idx of a tuple-valued instruction (call, comma-ok).
+func tupleExtract(call ssa.Value, idx int) ssa.Value {
 	for _, r := range referrersOf(call) {
 		if e, ok := r.(*ssa.Extract); ok && e.Index == idx {
 			return e
